@@ -59,6 +59,7 @@ var templates = []string{
 	`INPUTMODE = {M}`, `OUTPUTMODE = {M}`, `getline`, `getline x`, `getline < "/nonexistent/file"`, `getline x < {S}`, `getline $({N})`, `getline a[{N}]`, `getline $({N}) < {S}`, `{S} | getline`, `while ((getline line) > 0) if (++cnt > 100) break`,
 	`getline x < DATAFILE`, `getline < DATAFILE`, `getline $({N}) < DATAFILE`, `while ((getline line < DATAFILE) > 0) if (++cnt > 100) break`, `close(DATAFILE)`, `getline a[{N}] < DATAFILE`,
 	`close({S})`, `fflush({S})`, `fflush()`, `x = @{S}`, `x = @"name"`, `x = @$1`, `x = length()`, `x = length({S})`, `x = index({S}, {S})`, `x = tolower({S}) toupper({S})`,
+	`x = 1 + 2 * fnext({k})`, `x = "a" "b" fnf()`, `a[NR] = fexit({k}) + 1`, `for (k in ENVIRON) x = 1 + fnext(0)`, `x = substr("abc", fnext(1), fnf())`, `x = 1 + fexit({N})`,
 	`x = f({N})`, `x = g({N})`, `x = g({k})`, `x = h({N}, a)`, `x = m1({k})`, `r(arr, {k})`, `x = deep({N})`,
 	`RSTART = {N}; RLENGTH = {N}`, `NR = {N}`, `FNR = {N}`, `FILENAME = {S}`, `ENVIRON[{S}] = {S}`, `ARGV[{N}] = {S}`, `ARGV[1] = {S}; ARGC = 2`,
 	`t = {S}`, `t = t t`, `x = x + 1`, `u2 = u[1]`, `exit {N}`, `if ({N}) next2()`, `for (i = 0; i < 3; i++) { $({N}) = i; x = x $i }`, `do { x = substr(x, 2) } while (length(x) > 0 && ++cnt < 100)`,
@@ -74,6 +75,9 @@ function r(arr2, n,   loc) { loc[n] = 1; arr2[n] = loc[n]; if (n > 0) r(arr2, n 
 function deep(n,   i, s) { for (i = 0; i < 3; i++) s = s deep2(n) ; return s }
 function deep2(n) { return substr("abcdef", n, n) sprintf("%c", n) }
 function next2() { return 1 }
+function fnext(n) { if (n > 2) next; return fnext(n + 1) + 1 }
+function fnf() { nextfile }
+function fexit(n) { exit n }
 BEGIN { big = "a"; for (i_ = 0; i_ < 16; i_++) big = big big; big = big "aaaaaaaaaaaaaaaaaaaaaaaaaaaaaaaaaaaaaaaaaaaaaaaaaaaaaaaaaaaaaaaaaaaaaaaaaaaaaaaa" }
 `
 
